@@ -98,7 +98,8 @@ def _bnd_component(R, pid, tier, seed):
     mon = BND_MONITORS.get(pid)
     if mon is None:
         return
-    out = bnd.campaign(tier, seed)
+    # the campaign's seeds are fixed (listed in the case records): the verdict on a given tree does not depend on VERIF_SEED
+    out = bnd.campaign(tier, 0)
     recs = out["records"]
     exp = json.load(open(os.path.join(VERIF, "expectations.json")))
     ran = 0
@@ -172,7 +173,7 @@ def _bnd_component(R, pid, tier, seed):
                 viol.setdefault(f"BND.C06.{opt}.{kind}.wholesale", (f"every run of {opt} on the {kind} task now fails: {e['type']} in {e['where']}: {e['msg']}", rs[0]))
     for k, (m, r) in sorted(viol.items()):
         case = dict(r["case"])
-        R.violation(k, m, {"replay_kind": "bnd", "case": _full_case(r, tier, seed), "observed": m})
+        R.violation(k, m, {"replay_kind": "bnd", "case": _full_case(r, tier, 0), "observed": m})
     R.bounded[f"BND:{pid}"] = {
         "evaluations": ran, "distinct_nontrivial": len(distinct),
         "rule": "cases = (optimizer x task kind x direction x cycles x population scale x seed x mode / scenario) enumerated by "
